@@ -3,7 +3,7 @@ import concurrent.futures as cf
 
 from . import core, vec
 
-CMPS = {"less": "vf::Less", "greater": "vf::Greater", "coarse": "vf::Coarse", "stateful": "vf::Stateful", "tless": "vf::TLess", "fine": "vf::FinePar"}
+CMPS = {"eless": "vf::EmptyLess", "ecoarse": "vf::EmptyCoarse", "less": "vf::Less", "greater": "vf::Greater", "coarse": "vf::Coarse", "stateful": "vf::Stateful", "tless": "vf::TLess", "fine": "vf::FinePar"}
 
 
 class FSCfg:
@@ -51,6 +51,7 @@ FS_QUICK = [
     FSCfg("TR", "less", "greater", "s4", "basic", std="c++20"),  # operator<=>, erase_if
     FSCfg("int", "coarse", "less", "v", "amc"),  # raw arithmetic keys, equivalence coarser than equality
     FSCfg("TR", "fine", "less", "v", "basic"),  # comparator finer than the elements' operator==
+    FSCfg("TR", "eless", "ecoarse", "s4", "basic"),  # empty comparator classes (what std::less<T> is)
     FSCfg("NTRBIG", "less", "greater", "s4", "basic"),  # elements larger than a cache line
     FSCfg("NTR", "less", "greater", "f12"),  # a small bounded underlying vector: merges run into its capacity (out_of_range in the middle of a merge)
 ]
@@ -126,6 +127,9 @@ SS_HIST_QUICK = [
     SSCfg("TC4", 4, "tless", 6, "less", "flat", "basic"),
     SSCfg("NTR", 3, "tless", 5, "tless", "set"),
     SSCfg("TC4", 4, "fine", 6, "less", "set", "amc"),  # comparator finer than the elements' operator==
+    # empty comparator classes (what std::less<T> is): code specialised on std::is_empty<Compare>
+    SSCfg("NTR", 8, "eless", 4, "ecoarse", "set"),
+    SSCfg("TC4", 6, "ecoarse", 8, "eless", "flat", "basic"),
 ]
 SS_HIST_THOROUGH = [
     SSCfg("NTR", 8, "coarse", 4, "greater", "flat"),
